@@ -98,10 +98,21 @@ _ADD2 = {
  "C13": " decimal-bound-beliefs (12 comparisons against the per-precision MIN/MAX tables agree that the bound is representable, strict and safe mode) and narrowing-after-reduction (15 narrowing `as` casts in arrow-cast act on reduced values, never on raw kernel inputs).",
  "C14": " tolerated-error-is-atomic: where a decoder turns a callee's error into 'need more input' the callee is failure-atomic or rolled back (one recorded finding: Avro single-object decoder).",
 }
-_ALL = " influence-kept: for every named intermediate value of every function in the crates this property is anchored in, each parameter (with field path) that could influence it on the reference tree still can, while function, variable and parameter exist (ratchet against dropped operands)."
+_ADD3 = {
+ "C02": " layout-sibling-agreement (equal_values routes both members of each same-layout type pair alike), ree-coordinates (slice-relative run ends are never combined with the absolute offset).",
+ "C03": " layout-sibling-agreement (24 instances over MutableArrayData, filter, take, concat, interleave), view-rebase-guarded (8 sites that rebase ByteView::buffer_index test the inline threshold first).",
+ "C04": " layout-sibling-agreement (25 instances over the IPC writer, reader and projection skipper).",
+ "C07": " null-page-counts-values (the column index's null_page flag compares the null count with the number of values, not rows).",
+ "C08": " run-validated-utf8-checks-value-boundaries (6 Parquet byte-array decoders), pull-loop-progress (Avro container reader), footer-block-fields-checked (IPC file reader), slice-len-minus-const-guarded (4 sites), variant-dictionary-offsets-on-boundaries and variant-full-validation-recurses (Variant containers).",
+ "C11": " rows-buffer-ends-at-last-offset (from_binary) and raw-validity-needs-offset (get_bit on a NullBuffer's raw bytes uses its bit offset).",
+ "C12": " ree-coordinates (slice-relative run ends are never combined with the absolute offset).",
+}
+_ALL = " accumulator-reset-kept / accumulation-kept / mustpass-kept: ratchets against a reset hoisted out of a loop, `|=` turned into `=`, and a new successful exit that bypasses the function's must-pass callees. influence-kept: for every named intermediate value of every function in the crates this property is anchored in, each parameter (with field path) that could influence it on the reference tree still can, while function, variable and parameter exist (ratchet against dropped operands)."
 for _k, _v in _ADD.items():
     CLAIMED[_k]["text"] = CLAIMED[_k]["text"].rstrip() + _v
 for _k, _v in _ADD2.items():
+    CLAIMED[_k]["text"] = CLAIMED[_k]["text"].rstrip() + _v
+for _k, _v in _ADD3.items():
     CLAIMED[_k]["text"] = CLAIMED[_k]["text"].rstrip() + _v
 for _k in CLAIMED:
     CLAIMED[_k]["text"] = CLAIMED[_k]["text"].rstrip() + _ALL
